@@ -82,8 +82,13 @@ def one_connection(acc, sc, rng, case, wit, round_no):
             h, e = ids(rng, used)
             data = R.encode(N.cer(hbh=h, e2e=e, apps=sc.apps))
             requests.append(("CEA", h, e))
-        else:
+        elif c < 0.9:
             data = R.encode(N.app_request(5000 + k, dest_realm=N.LOCAL[1]) if rng.random() < 0.5 else N.app_answer(6000 + k))
+        else:
+            # base *answers* from the peer (a late or stray DWA / CEA): whatever the node does with them, it must not answer them
+            h, e = ids(rng, used)
+            data = R.encode(N.dwa(hbh=h, e2e=e) if rng.random() < 0.7 else N.cea(hbh=h, e2e=e, apps=sc.apps))
+            acc.counters["stray_base_answers_injected"] += 1
         if case["back_to_back"]:
             burst += data
         else:
@@ -230,7 +235,7 @@ def main(tier, seed):
                           ["the peer is scripted by the driver task; answers are read from the bytes the node wrote to the substituted socket",
                            "identifier pairs are sampled (boundary + random), not enumerated over 2^64",
                            "emission order is decided on scheduler steps: the send() that carried the answer's last byte vs the step at which the state machine took the next inbound message"],
-                          t0, require_counters=("answers_seen", "connections", "reconnects", "ordering_checked", "backlog_cases", "real_loopback_ok"))
+                          t0, require_counters=("answers_seen", "connections", "reconnects", "ordering_checked", "backlog_cases", "real_loopback_ok", "stray_base_answers_injected"))
 
 
 def replay(w):
